@@ -113,6 +113,8 @@ type Interp struct {
 	filterNode  map[int]*Value
 	filterSeq   int
 	peekSeq     int
+	appended    map[*Value]bool // Data buffers of packets that have been appended to a parent
+	staleChild  string          // set when such a buffer is written afterwards
 	decSeq      int
 	decoded     []decodedRec
 	env         *Obj
